@@ -558,14 +558,22 @@ def _worker(args):
 
 
 def _pin(counter):
-    """pin each worker to one CPU before jax is imported: XLA sizes its thread pools from the affinity mask, and 16
-    workers x 70 XLA threads otherwise make the first task of every worker ~30x slower (measured)."""
+    """XLA sizes its thread pools from the CPU affinity mask when the backend starts; 16 workers x ~70 XLA threads make
+    every worker ~30x slower (measured).  So: restrict the mask to one CPU, start jax (import + first op), then give
+    the full mask back so that the (now small) process can be scheduled anywhere (concurrent checks do not pile up on
+    the same CPUs)."""
     try:
+        full = os.sched_getaffinity(0)
         with counter.get_lock():
             k = counter.value
             counter.value += 1
-        cpus = sorted(os.sched_getaffinity(0))
-        os.sched_setaffinity(0, {cpus[k % len(cpus)]})
+        cpus = sorted(full)
+        os.sched_setaffinity(0, {cpus[(k + os.getpid()) % len(cpus)]})
+        from . import env  # noqa: F401
+        import jax.numpy as jnp
+
+        jnp.zeros((2,)).block_until_ready()
+        os.sched_setaffinity(0, full)
     except Exception:
         pass
 
